@@ -1,5 +1,7 @@
 import WV.Model.C12
 import WV.Model.ClientData
+import WV.Model.C05
+import WV.Model.C10
 
 /-! Line-protocol driver over the executable models.  First stdin line names the model
     (`C12`, …); every following line is one operation; one output line per operation. -/
@@ -14,6 +16,8 @@ def dispatch (which : String) (lines : List String) : List String :=
   match which with
   | "C12" => WV.C12.driver lines
   | "CLIENT" => WV.ClientData.driver lines
+  | "C05" => WV.C05.driver lines
+  | "C10" => WV.C10.driver lines
   | _ => ["unknown-model " ++ which]
 
 def main : IO Unit := do
